@@ -384,6 +384,11 @@ def run(ctx: Context, rep) -> None:
     # nothing read from the dataset's files / the environment is memoised
     from sa.rules import shared as _shm
     _shm.check_no_memo(ctx, rep, "C15.memo")
+    _shm.check_assert_pure(ctx, rep, "C15.assert")
+    # the native reader's unit of work: one shard per task, opened (not
+    # decoded) in the worker, with the caller's thread count (same check as
+    # C14.rust)
+    rustrules.check_pulls(ctx, rep, "C15.pulls")
 
 _PM = "rust/src/parallel_map.rs"
 _EI = "rust/src/example_iteration.rs"
